@@ -166,7 +166,11 @@ fn execute(world: &World<'_>, case: &Case, chooser: &mut dyn Chooser, info: &mut
         })
     };
     let mut filter = IdleFilter { inner: chooser, idle_tid: 0, state: wake_state.clone(), release: b_done.clone() };
-    let run = sched::run_opts(vec![a_job, b_job], &mut filter, &mut |_| Ok(()), &Opts { stutter_labels: Some(STUTTER_LABELS) });
+    let mut watch = Watch::new(&inst.history);
+    let run = sched::run_opts(vec![a_job, b_job], &mut filter, &mut |t| {
+        watch.on_step(t);
+        Ok(())
+    }, &Opts { stutter_labels: Some(STUTTER_LABELS), ..Default::default() });
     if let Some((tid, msg)) = run.panics.first() {
         return Verdict::fail("C17/thread-panic", format!("thread {} panicked: {}", tid, msg));
     }
@@ -178,8 +182,8 @@ fn execute(world: &World<'_>, case: &Case, chooser: &mut dyn Chooser, info: &mut
     }
     let Some(a) = out.lock().unwrap().take() else { return Verdict::Dropped("no_result_from_A".into()) };
     let trace = &run.trace;
-    let ups = updater_positions(trace, 1);
-    if ups.len() != case.steps.len() || ups.iter().any(|u| !u.ok || u.install.is_none() || u.mark_done.is_none() || u.notify.is_none()) {
+    let mut ups = updater_positions(trace, 1);
+    if ups.len() != case.steps.len() || !watch.apply(&mut ups) || ups.iter().any(|u| !u.ok || u.install.is_none() || u.mark_done.is_none() || u.notify.is_none()) {
         return Verdict::Dropped("updater_trace_incomplete".into());
     }
 
@@ -452,9 +456,12 @@ pub fn run(ctx: &Ctx, rep: &mut Report, replay: Option<&serde_json::Value>) {
         return;
     }
     // one directed representative of the known shape (prints KNOWN-FINDING while it reproduces)
-    DIRECTED.with(|d| d.set(true));
-    run_case(ctx, rep, "sched", &directed_known(), |c, i| prop_sched(&world, c, i));
-    DIRECTED.with(|d| d.set(false));
+    // RV_SKIP_DIRECTED=1 (testing aid): let the bulk search find the shape on its own
+    if std::env::var_os("RV_SKIP_DIRECTED").is_none() {
+        DIRECTED.with(|d| d.set(true));
+        run_case(ctx, rep, "sched", &directed_known(), |c, i| prop_sched(&world, c, i));
+        DIRECTED.with(|d| d.set(false));
+    }
     if rep.violated() {
         return;
     }
@@ -462,6 +469,6 @@ pub fn run(ctx: &Ctx, rep: &mut Report, replay: Option<&serde_json::Value>) {
     if rep.violated() {
         return;
     }
-    run_prop(ctx, rep, "sched", ctx.tier.pick(1_500, 40_000), case_strategy(), |c, i| prop_sched(&world, c, i));
+    run_prop(ctx, rep, "sched", ctx.tier.pick(15_000, 120_000), case_strategy(), |c, i| prop_sched(&world, c, i));
     flush_excluded(rep);
 }
